@@ -34,6 +34,8 @@ def obligations(tier):
                     clause="descending into a tuple pattern never panics, for every element list including the empty one (the unit pattern `()`)"))
     out.append(dict(engine="verus", unit="completion", function="FindVisitor::visit_pattern::record_field_span", name="C20/completion/record_pattern_field_span", source=COMP + "::FindVisitor::visit_pattern (arm Pattern::Record, span closure)",
                     clause="a record-pattern field `name = pattern` occupies the range from its label to the end of its pattern (a cursor inside the nested pattern selects the field), a shorthand field its label"))
+    out.append(dict(engine="verus", unit="completion", function="FindVisitor::visit_pattern::record_value_field", name="C20/completion/visit_pattern_record_value_field", source=COMP + "::FindVisitor::visit_pattern (arm Pattern::Record, PatternField::Value)",
+                    clause="cursor on the label of a record-pattern field: the label is reported with the type of that field; behind the label of `name = pattern`: the search descends into the pattern; otherwise nothing is reported"))
     out.append(dict(engine="verus", unit="completion", function="Suggest::on_pattern::As", name="C20/completion/Suggest_on_pattern_as", source=COMP + "::Suggest::on_pattern (arm Pattern::As)",
                     clause="binding the name of an as-pattern never panics, also when the pattern under it does not type check (only the total try_type_of may be used: env_type_of has the precondition `well typed`)"))
     ns = [1, 2, 3] if tier == "quick" else [1, 2, 3, 4]
